@@ -2,27 +2,65 @@
 
 PATTERN_SRC = ["harness/drv_pattern.cpp"]
 
+
+def _urlpattern_vectors():
+    """WPT urlpatterntestdata.json of the tree under test -> line format (tools/urlpattern2lines.py), cached under
+    build/vectors/<hash of json + converter>. Returns the path, or None (then the driver reports exhaustive:false)."""
+    import hashlib
+    import subprocess
+    src = os.path.join(vlib.REPO, "tests", "wpt", "urlpatterntestdata.json")
+    tool = os.path.join(vlib.VERIF, "tools", "urlpattern2lines.py")
+    if not (os.path.exists(src) and os.path.exists(tool)):
+        return None
+    with open(src, "rb") as a, open(tool, "rb") as b:
+        hh = hashlib.sha256(a.read() + b"\0" + b.read()).hexdigest()[:16]
+    d = os.path.join(vlib.BUILD, "vectors", hh)
+    out = os.path.join(d, "urlpattern.lines")
+    if not os.path.exists(out):
+        os.makedirs(d, exist_ok=True)
+        tmp = out + ".%d.tmp" % os.getpid()
+        r = subprocess.run(["/usr/bin/python3", tool, src, tmp], cwd="/", stdout=subprocess.PIPE, stderr=subprocess.STDOUT)
+        if r.returncode != 0 or not os.path.exists(tmp):
+            return None
+        os.replace(tmp, out)
+    return out
+
+
+def _pattern_stage(prop, tier):
+    # the driver stops cleanly at --deadline (exhaustive:false, exit 0), before check.py's hard kill (300 s / 3600 s)
+    args = ["--prop", prop, "--deadline", "2400" if tier == "thorough" else "200"]
+    if prop == "C15":
+        vec = _urlpattern_vectors()
+        if vec:
+            args += ["--vectors", vec]
+    return {"name": "pattern-enum", "driver": "drv_pattern", "config": "rel", "sources": PATTERN_SRC + REF_SRC,
+            "flags": REF_FLAGS, "args": args, "kinds": ["pattern"]}
+
 simple("C14", "exploration",
-       "patterns: every pair of components x every pair of values from the per-component pattern menu (singles in quick), as init "
-       "dictionaries and constructor strings, +-baseURL, ignoreCase in {false,true}; inputs: URL strings (+-base) and init "
-       "dictionaries spanning match / near-miss for every menu entry; each (pattern, input) executed on the real code; "
-       "non-trivial = pattern constructed; distinct = distinct (pattern, input, result) tuples",
+       "patterns: every single component x the full per-component pattern menu (16-20 values), every unordered pair of components "
+       "x every pair of menu values, every unordered triple x a 3-value (quick) / 10-value (thorough) menu, each as init dictionary, "
+       "dictionary + baseURL, absolute constructor string and (relative) constructor string + base argument, ignoreCase in "
+       "{false,true}; inputs: 245 URL strings (+-base) and init dictionaries spanning match / near-miss for every menu entry; each "
+       "(pattern, input) executed on the real code in both compilations; non-trivial = exec() returned a result; distinct = distinct "
+       "(pattern, inputs, groups) tuples",
        ["oracle: test()==exec().has_value()==match(); exec inputs == ada::parse / refurl components (refpattern url-type "
         "canonical values for dictionary inputs); every result identical when all components are forced to REGEXP mode "
         "(ADA_URL_ADA_VERIF hook)", "std::regex is the only regex provider"],
-       lambda tier: [{"name": "pattern-enum", "driver": "drv_pattern", "config": "rel", "sources": PATTERN_SRC + REF_SRC,
-                      "flags": REF_FLAGS, "args": ["--prop", "C14"], "kinds": ["pattern"]}],
+       lambda tier: [_pattern_stage("C14", tier)],
        needs_models=True)
 
 simple("C15", "model_checking",
-       "literal component values (E-tok per-component alphabets, E-byte over every byte value against char_class_table, IPv4-shaped "
-       "hostnames, dot segments, ports x protocols) as init dictionaries +-baseURL and constructor strings; url-type values observed "
-       "through exec() on the all-wildcard pattern; WPT urlpatterntestdata.json vectors; states = distinct canonical outputs, "
-       "transitions = constructions, each one a model trace replayed on the implementation",
+       "literal component values: E-tok over per-component alphabets of 14-21 tokens (k<=4 quick, every length with 7 bases + none; "
+       "k<=5 thorough, the longest length without bases), E-byte (every ASCII byte and 2/3/4-byte UTF-8 sequences at 6 positions) "
+       "against char_class_table, IPv4-shaped hostnames (<=5/6 tokens) + 100 IPv6/IDNA shapes, 36 ports x 12 protocols, 33 dot-segment "
+       "paths x 5 protocol contexts, each as init dictionary +-baseURL and through exec() on the all-wildcard pattern (url-type "
+       "values); all constructor strings of <=4/5 tokens over 18 tokens x 3 base arguments; the WPT urlpatterntestdata.json vectors. "
+       "Revision-sensitive values are excluded and counted (protocol starting with C0/space, port whose digits buffer is empty, ' in "
+       "search, \\ in a non-opaque pathname). states = distinct canonical outputs, transitions = constructions/executions, each one "
+       "a model trace replayed on the implementation",
        ["oracle: refpattern = URLPattern Standard canonicalisation over refurl (state override) + Standard's encode sets",
         "std::regex is the only regex provider; vectors needing unsupported regex features are skipped as in the project's driver"],
-       lambda tier: [{"name": "pattern-enum", "driver": "drv_pattern", "config": "rel", "sources": PATTERN_SRC + REF_SRC,
-                      "flags": REF_FLAGS, "args": ["--prop", "C15"], "kinds": ["pattern"]}],
+       lambda tier: [_pattern_stage("C15", tier)],
        needs_models=True)
 
 simple("C17", "exploration",
